@@ -1012,7 +1012,8 @@ func exec(c px.Context, op string, args []sx.Sexp) core.Result {
 			}
 		}()
 	})
-	if op != "fmt" || len(args) != 2 {
+	// fmtf = fmt with an oracle of fmt.Sprintf results for the Lean driver (ignored here)
+	if !((op == "fmt" && len(args) == 2) || (op == "fmtf" && len(args) == 4)) {
 		return core.Result{Out: "bad-op", Pred: "FAIL harness-bad-op " + op}
 	}
 	ve := args[1]
